@@ -14,6 +14,7 @@ import AcnProofs.Lemmas.EventCoreRun
 import AcnProofs.Lemmas.EventCoreSim
 import AcnProofs.Lemmas.EventCoreQueue
 import AcnProofs.Lemmas.EventCoreNet
+import AcnProofs.Lemmas.EventCoreNetH
 import AcnProofs.Lemmas.EventCoreSimQ
 
 namespace Acn.C01
@@ -418,6 +419,34 @@ theorem history_sorted_complete_any_network {σ : Type} {cfg : Cfg} (hq : ValidQ
       (cfg.sessions.map plugEv ++ cfg.sessions.map unplugEv ++ cfg.recomputes.map recEv) := by
   obtain ⟨g, hr, _, _, _, h1, h2, _⟩ := run_terminates_any_network hq hops hnet hs ha net0 hN n hn
   rw [hr]; exact ⟨rfl, h1, h2⟩
+
+/-- the same for the loop WITH the per-period hook `post_charging_update` (`runGP`) and a network
+    whose invariant is indexed by `event_history` (`NoFailH`: at a plug-in the plug-in event is new,
+    at an unplug the plug-in event is in the history) — the form C19 instantiates -/
+theorem history_sorted_complete_any_network_H {σ : Type} {cfg : Cfg} (hq : ValidQ cfg) {ops : QOps}
+    {good : List Event → Prop} (hops : ops.Ok good) {net : NetOps σ}
+    {post : Nat → σ → σ × Option Err} {P : List Event → σ → Prop} (hnet : NoFailH net post cfg P)
+    {sched apply : CoreG σ → Option Err} (hs : ∀ g, sched g = none) (ha : ∀ g, apply g = none)
+    (net0 : σ) (hN : P [] net0) (n : Nat) (hn : horizon cfg ≤ n) :
+    ∃ g, runGP ops net post cfg sched apply n (initG ops cfg net0) = (g, none) ∧ g.core.pending = [] ∧
+      g.core.iter = horizon cfg ∧ P g.core.eventHist g.net ∧
+      g.core.eventHist.Pairwise (fun a b => a.keyLe b = true) ∧
+      g.core.eventHist.Perm
+        (cfg.sessions.map plugEv ++ cfg.sessions.map unplugEv ++ cfg.recomputes.map recEv) := by
+  obtain ⟨h0, g0⟩ := initG_inv (σ := σ) hq hops net0
+  obtain ⟨g, hr, hI, hP⟩ := runGP_spec hq hops hnet hs ha n 0 (initG ops cfg net0) h0 g0 hN (Nat.zero_le _)
+  rw [Nat.min_eq_right (by omega)] at hI
+  have hp : g.core.pending = [] := by
+    by_contra h
+    exact absurd ((pendingG_ne_nil_iff hq hI).1 h) (lt_irrefl _)
+  have hv' := valid_relabel hq
+  have hc := history_complete hv' hI.toInv_at_horizon
+  have e1 : (relabel cfg).sessions.map plugEv = cfg.sessions.map plugEv := by
+    simp only [relabel, List.map_map]; exact List.map_congr_left (fun x _ => rfl)
+  have e2 : (relabel cfg).sessions.map unplugEv = cfg.sessions.map unplugEv := by
+    simp only [relabel, List.map_map]; exact List.map_congr_left (fun x _ => rfl)
+  rw [e1, e2] at hc
+  exact ⟨g, hr, hp, hI.iter, hP, hI.hist_sorted, hc⟩
 
 /-- `ChargingNetwork` + canonical queue: the generalised loop is the loop of `EventCore.lean` -/
 theorem bodyG_chargingNet_eq_body (cfg : Cfg) (sched apply : Core → Option Err)
